@@ -13,7 +13,8 @@ use serde_json::{json, Value};
 use std::io::Write;
 use std::sync::{Arc, Barrier};
 
-const SPECIAL: [&str; 18] = [
+const SPECIAL: [&str; 20] = [
+    "\u{314b}\u{314b}\u{314b}", "\u{3d4}",
     "\u{b4}lvaro", "Zoe \u{a8}Bell", "\u{2163}\u{12163}", "100\u{b5}m",
     "\u{391}\u{3a3}", "\u{39f}\u{394}\u{3a5}\u{3a3}\u{3a3}\u{395}\u{3a5}\u{3a3}", "A\u{3a3} B", "\u{3a3}", "\u{130}x", "Ⅳ x",
     "correct horse", "Richard \u{2163}", "e\u{301}", "\u{ff21}\u{ff22}", " a  b ", "\u{5d0}\u{5b8}", "\u{5d0}1", "",
